@@ -102,10 +102,18 @@ example : seqKeys [cmdP 7 "A", cmdP 4 "B"] = [] ++ 4 :: [7] ∧ getPeer (entry [
 example : (matchLoop [cmdP 7 "A", cmdP 4 "B"] [cmdP 1 "B", cmdP 2 "A", cmdP 3 "B"] [1, 2, 3] [4, 7] []).1 =
     [⟨[cmdP 4 "B"], [cmdP 1 "B"]⟩, ⟨[cmdP 7 "A"], [cmdP 2 "A"]⟩] := by decide
 
-/-- every device entry is handed to `f` exactly once, in ascending order -/
+/-- **Every device entry is handed to `f` exactly once, in ascending order**: the device sides of the calls of the
+matching loop are exactly the entries `entry al s` for `s` running through the device's sequence numbers, and that list of
+numbers is strictly ascending (hence without repetition) and holds exactly the numbers that occur on the device. -/
 theorem crypto_device_entries_once (al bl : List Cmd) :
-    (matchLoop al bl (seqKeys bl) (seqKeys al) []).1.length = (seqKeys al).length :=
-  matchLoop_length al bl _ _ _
+    (matchLoop al bl (seqKeys bl) (seqKeys al) []).1.map (·.a) = (seqKeys al).map (entry al) ∧
+    (seqKeys al).Pairwise (· < ·) ∧ (∀ s, s ∈ seqKeys al ↔ ∃ c ∈ al, c.seq = s) ∧
+    ∀ s ∈ seqKeys al, entry al s ≠ [] :=
+  ⟨matchLoop_a al bl _ _ _, seqKeys_sorted al, mem_seqKeys al, entry_ne_nil al⟩
+
+/-- non-vacuity: two device entries given in descending order are visited in ascending order, once each -/
+example : (matchLoop [cmdP 7 "A", cmdP 4 "B"] [] [] (seqKeys [cmdP 7 "A", cmdP 4 "B"]) []).1.map (·.a) =
+    [[cmdP 4 "B"], [cmdP 7 "A"]] := by decide
 
 /-- **Every target entry is handed to `f` exactly once**: in the matching loop iff it was consumed there
 (then it is not in the list of the fresh-number loop), otherwise not at all in the matching loop (and it is
